@@ -878,6 +878,13 @@ pub fn check_main<P: Prop>(tier: Tier, seed: u64, workers: usize, extra: Option<
             exit = 2;
         }
     }
+    let (sess, sess_open) = (outc.stats.get("reach.sessions"), outc.stats.get("reach.sessions_opened"));
+    if sess >= 1000 && sess_open * 10 < sess {
+        eprintln!("HARNESS-ERROR: only {sess_open} of {sess} corrupted images still opened (normally about half): reach collapsed");
+        if exit == 0 {
+            exit = 2;
+        }
+    }
     // evidence
     let wall = outc.wall_s;
     let st = &mut outc.stats;
